@@ -32,11 +32,6 @@ QEsc(bs) == IF bs = <<>> THEN <<>>
 (* number of code points of valid UTF-8 *)
 RuneCount(bs) == Cardinality({i \in 1..Len(bs) : bs[i] < 128 \/ bs[i] >= 192})
 (* all occurrences of a non-empty pattern, left to right *)
-RECURSIVE ReplAll(_, _, _)
-ReplAll(bs, old, new) ==
-  IF Len(bs) < Len(old) THEN bs
-  ELSE IF SubSeq(bs, 1, Len(old)) = old THEN new \o ReplAll(SubSeq(bs, Len(old) + 1, Len(bs)), old, new)
-  ELSE <<bs[1]>> \o ReplAll(Tail(bs), old, new)
 RECURSIVE JoinB(_, _)
 JoinB(parts, sep) == IF parts = <<>> THEN <<>> ELSE IF Len(parts) = 1 THEN parts[1] ELSE parts[1] \o sep \o JoinB(Tail(parts), sep)
 RECURSIVE Chunks(_, _)
